@@ -108,7 +108,8 @@ IntStr(n) == ToString(n)
 (* --------------------------- the evaluator ------------------------------ *)
 RECURSIVE Ev(_, _, _), EvList(_, _, _, _), EvElems(_, _, _, _), EvPairs(_, _, _, _), EvArgs(_, _, _, _, _, _),
           EvKw(_, _, _, _, _), EvStmts(_, _, _, _, _, _), RunDefers(_, _, _, _), RunBody(_, _, _),
-          Apply(_, _, _, _), CallProp(_, _, _, _, _), Truthy(_, _), EvParts(_, _, _, _, _), CallValue(_, _, _, _)
+          Apply(_, _, _, _), CallProp(_, _, _, _, _), Truthy(_, _), EvParts(_, _, _, _, _), CallValue(_, _, _, _),
+          ListLoop(_, _, _, _, _, _, _, _), RedLoop(_, _, _, _, _, _, _, _), RangeElems(_, _, _)
 
 (* truthiness = the value's B property is the object true (identity) *)
 Truthy(v, st) ==
@@ -267,6 +268,8 @@ IntOp(op, a, b, st) ==
     [] op = "<=>" -> R("val", IntV(IF a < b THEN -1 ELSE IF a = b THEN 0 ELSE 1), st)
     [] OTHER -> Unsupported(st)
 
+(* names that no built-in prototype defines: looking them up on a value without such an own property is NoPropErr *)
+UserProps == {"nosuchprop", "um", "uma", "ustep", "uget"}
 (* property call on a receiver value (scalar chain, no additional context) *)
 CallProp(recv, name, pos, kw, st) ==
   LET own == OwnProp(recv, name) IN
@@ -275,13 +278,78 @@ CallProp(recv, name, pos, kw, st) ==
       ELSE IF own.v.t = "fn" THEN R("val", own.v, st)          \* iterators are returned, not called
       ELSE R("val", own.v, st))                                  \* non-callable: as is, arguments ignored
   ELSE IF recv.t = "fn" /\ name = "call" THEN Apply(recv, pos, kw, st)
-  ELSE IF name = "nosuchprop" THEN R("err", ErrV("NoPropErr", "property `nosuchprop` is not defined."), st)
+  ELSE IF name \in UserProps THEN R("err", ErrV("NoPropErr", "property `" \o name \o "` is not defined."), st)
+  ELSE IF recv.t = "int" /\ name \in {"+", "-", "*", "//", "%", "<", "<=", ">", ">=", "<=>"} /\ Len(pos) = 1 /\ pos[1].t = "int"
+       THEN IntOp(name, recv.i, pos[1].i, st)
   ELSE IF name = "len" /\ recv.t = "arr" THEN R("val", IntV(Len(recv.es)), st)
   ELSE IF name = "at" /\ recv.t = "arr" /\ Len(pos) = 1 /\ pos[1].t = "arr" /\ Len(pos[1].es) = 1 /\ pos[1].es[1].t = "int" THEN
          LET n == Len(recv.es)  i == pos[1].es[1].i IN
          R("val", IF i >= 0 /\ i < n THEN recv.es[i + 1] ELSE IF i < 0 /\ i >= -n THEN recv.es[i + n + 1] ELSE NilV, st)
   ELSE IF name = "at" /\ recv.t = "obj" /\ Len(pos) = 1 /\ pos[1].t = "arr" /\ Len(pos[1].es) = 1 /\ pos[1].es[1].t = "str" THEN
          LET p == OwnProp(recv, pos[1].es[1].s) IN IF p.found THEN R("val", p.v, st) ELSE Unsupported(st)
+  ELSE Unsupported(st)
+
+(* ------------------------------- chains --------------------------------- *)
+(* cal = [form |-> "prop", n |-> name] | [form |-> "fn", fn |-> function value]                       *)
+(* one call on one receiver under an additional context: "" none, "&" lonely, "~" thoughtful, "=" strict *)
+ApplyLit(fn, recv, st) ==
+  IF fn.t # "fn" \/ (recv.t = "obj" /\ OwnProp(recv, "_literalProxy").found) THEN Unsupported(st)
+  ELSE Apply(fn, IF Len(fn.ps) > 1 /\ recv.t = "arr" THEN recv.es ELSE <<recv>>, <<>>, st)
+CallOne(cal, recv, pos, kw, st) ==
+  IF cal.form = "prop" THEN CallProp(recv, cal.n, pos, kw, st) ELSE ApplyLit(cal.fn, recv, st)
+One(add, cal, recv, pos, kw, st) ==
+  IF add = "&" /\ recv.t = "nil" THEN R("val", NilV, st)
+  ELSE LET c == CallOne(cal, recv, pos, kw, st) IN
+       IF add = "~" /\ (c.k = "err" \/ (c.k = "val" /\ c.v.t = "nil")) THEN R("val", recv, c.st) ELSE c
+
+(* the elements a receiver's iterator yields *)
+RangeElems(i, stop, step) ==
+  IF (step > 0 /\ i < stop) \/ (step < 0 /\ i > stop) THEN <<IntV(i)>> \o RangeElems(i + step, stop, step) ELSE <<>>
+HasElems(v) == \/ v.t \in {"arr", "int"}
+               \/ v.t = "obj" /\ OwnProp(v, "_iter").found = FALSE /\ OwnProp(v, "next").found = FALSE
+               \/ v.t = "range" /\ v.a.t = "int" /\ v.b.t = "int" /\ v.c.t \in {"int", "nil"} /\ (v.c.t = "nil" \/ v.c.i # 0)
+Elems(v) ==
+  CASE v.t = "arr"   -> v.es
+    [] v.t = "int"   -> [k \in 1..(IF v.i > 0 THEN v.i ELSE 0) |-> IntV(k)]
+    [] v.t = "obj"   -> [k \in 1..Len(v.ps) |-> ArrV(<<StrV(v.ps[k].k), v.ps[k].v>>)]
+    [] v.t = "range" -> RangeElems(v.a.i, v.b.i, IF v.c.t = "nil" THEN 1 ELSE v.c.i)
+
+(* list chain: results in order; nil results dropped unless the variant keeps them ("=" strict, "~" thoughtful) *)
+ListLoop(els, i, acc, add, cal, pos, kw, st) ==
+  IF i > Len(els) THEN R("val", acc, st)
+  ELSE LET c == One(IF add = "=" THEN "" ELSE add, cal, els[i], pos, kw, st) IN
+       IF c.k # "val" THEN c
+       ELSE IF c.v.t = "nil" /\ add \notin {"=", "~"} THEN ListLoop(els, i + 1, acc, add, cal, pos, kw, c.st)
+       ELSE ListLoop(els, i + 1, Append(acc, c.v), add, cal, pos, kw, c.st)
+(* reduce chain: fold left from the chain argument; property form calls acc.prop(elem, args),            *)
+(* literal form calls the function with the pair [acc, elem] (spread over two parameters)                *)
+RedLoop(els, i, acc, add, cal, pos, kw, st) ==
+  IF i > Len(els) THEN R("val", acc, st)
+  ELSE IF cal.form = "prop" THEN
+         LET c == One(add, cal, acc, <<els[i]>> \o pos, kw, st) IN
+         IF c.k # "val" THEN c ELSE RedLoop(els, i + 1, c.v, add, cal, pos, kw, c.st)
+       ELSE
+         LET c == ApplyLit(cal.fn, ArrV(<<acc, els[i]>>), st) IN      \* the pair is never nil: lonely has no effect here
+         IF Bad(c) THEN c
+         ELSE IF add = "~" /\ (c.k = "err" \/ (c.k = "val" /\ c.v.t = "nil")) THEN RedLoop(els, i + 1, acc, add, cal, pos, kw, c.st)
+         ELSE IF c.k # "val" THEN c
+         ELSE RedLoop(els, i + 1, c.v, add, cal, pos, kw, c.st)
+
+Digest(carg, results, st) ==
+  IF carg.t = "nil" THEN R("val", ArrV(results), st)
+  ELSE IF carg.t = "arr" THEN R("val", ArrV(carg.es \o results), st)
+  ELSE IF carg.t = "obj" /\ carg.ps = <<>> /\ \A k \in 1..Len(results) :
+              results[k].t = "arr" /\ Len(results[k].es) = 2 /\ results[k].es[1].t = "str"
+       THEN R("val", ObjV(SortPairs(st.names, [k \in 1..Len(results) |-> [k |-> results[k].es[1].s, v |-> results[k].es[2]]], 1)), st)
+  ELSE Unsupported(st)
+
+Chain(main, add, cal, recv, carg, pos, kw, st) ==
+  IF main = "." THEN One(add, cal, recv, pos, kw, st)
+  ELSE IF ~HasElems(recv) THEN Unsupported(st)
+  ELSE IF main = "@" THEN
+         LET r == ListLoop(Elems(recv), 1, <<>>, add, cal, pos, kw, st) IN
+         IF r.k # "val" THEN r ELSE Digest(carg, r.v, r.st)
+  ELSE IF main = "$" THEN RedLoop(Elems(recv), 1, carg, add, cal, pos, kw, st)
   ELSE Unsupported(st)
 
 Ev(e, f, st) ==
@@ -309,6 +377,7 @@ Ev(e, f, st) ==
                (IF EqSupported(a.v) /\ EqSupported(b.v) /\ ~(a.v.t # b.v.t /\ {a.v.t, b.v.t} \subseteq {"int", "bool"})
                 THEN R("val", BoolV((e.op = "==") = VEq(a.v, b.v)), b.st) ELSE Unsupported(b.st))
             ELSE IF a.v.t = "int" /\ b.v.t = "int" THEN IntOp(e.op, a.v.i, b.v.i, b.st)
+            ELSE IF e.op = "+" /\ a.v.t = "nil" /\ b.v.t = "int" THEN R("val", b.v, b.st)
             ELSE IF e.op = "+" /\ a.v.t = "str" /\ b.v.t = "str" THEN R("val", StrV(a.v.s \o b.v.s), b.st)
             ELSE IF e.op = "+" /\ a.v.t = "arr" /\ b.v.t = "arr" THEN R("val", ArrV(a.v.es \o b.v.es), b.st)
             ELSE IF e.op = "+" /\ a.v.t = "int" /\ b.v.t = "str" THEN R("err", ErrV("TypeErr", "*"), b.st)
@@ -342,22 +411,25 @@ Ev(e, f, st) ==
                          IF a.found THEN R("val", a.v, st) ELSE R("err", ErrV("NameErr", "name `\\1` is not defined"), st))
                    ELSE Ev(e.r, f, st) IN
          IF rv.k # "val" THEN rv ELSE
-         LET as == EvArgs(e.args, 1, f, rv.st, <<>>, <<>>) IN
+         LET cg == IF e.carg.t = "none" THEN R("val", NilV, rv.st) ELSE Ev(e.carg, f, rv.st) IN
+         IF cg.k # "val" THEN cg ELSE
+         LET as == EvArgs(e.args, 1, f, cg.st, <<>>, <<>>) IN
          IF as.k # "val" THEN R(as.k, as.v, as.st) ELSE
          LET ks == EvKw(e.kw, 1, f, as.st, <<>>) IN
          IF ks.k # "val" THEN ks ELSE
          LET kw == ks.v \o as.kw IN
-         IF e.add = "&" /\ rv.v.t = "nil" THEN R("val", NilV, ks.st)
-         ELSE LET c == CallProp(rv.v, e.n, as.pos, kw, ks.st) IN
-              IF e.add = "~" THEN
-                 (IF c.k = "err" \/ (c.k = "val" /\ c.v.t = "nil") THEN R("val", rv.v, c.st) ELSE c)
-              ELSE c
-    [] e.t = "lcall" ->        \* recv.{|..| ..} : receiver, then the literal, then the call (arrays spread over >1 parameters)
-         LET rv == Ev(e.r, f, st) IN IF rv.k # "val" THEN rv ELSE
-         LET fv == Ev(e.fn, f, rv.st) IN IF fv.k # "val" THEN fv ELSE
-         IF fv.v.t # "fn" THEN Unsupported(fv.st)
-         ELSE IF rv.v.t = "obj" THEN Unsupported(fv.st)             \* objects may define _literalProxy
-         ELSE Apply(fv.v, IF Len(fv.v.ps) > 1 /\ rv.v.t = "arr" THEN rv.v.es ELSE <<rv.v>>, <<>>, fv.st)
+         Chain(e.main, e.add, [form |-> "prop", n |-> e.n], rv.v, cg.v, as.pos, kw, ks.st)
+    [] e.t \in {"lcall", "vcall"} ->   \* recv.{|..| ..} / recv.^f : receiver, then the callee, then the chain argument, then the call
+         LET rv == IF e.r.t = "none"
+                   THEN (LET a == LookupAv(st.fr, f, "\\1") IN
+                         IF a.found THEN R("val", a.v, st) ELSE R("err", ErrV("NameErr", "name `\\1` is not defined"), st))
+                   ELSE Ev(e.r, f, st) IN
+         IF rv.k # "val" THEN rv ELSE
+         LET fv == Ev(IF e.t = "lcall" THEN e.fn ELSE [t |-> "id", n |-> e.n], f, rv.st) IN IF fv.k # "val" THEN fv ELSE
+         LET cg == IF e.carg.t = "none" THEN R("val", NilV, fv.st) ELSE Ev(e.carg, f, fv.st) IN
+         IF cg.k # "val" THEN cg ELSE
+         IF fv.v.t # "fn" \/ fv.v.kind # "func" THEN Unsupported(cg.st)
+         ELSE Chain(e.main, e.add, [form |-> "fn", fn |-> fv.v], rv.v, cg.v, <<>>, <<>>, cg.st)
     [] e.t = "try"  ->         \* recv.try.{|x| ..}.<acc> : the Either protocol for one step
          LET rv == Ev(e.r, f, st) IN IF rv.k # "val" THEN rv ELSE
          LET fv == Ev(e.fn, f, rv.st) IN IF fv.k # "val" THEN fv ELSE
